@@ -12,6 +12,7 @@ import (
 	"github.com/0xReLogic/Helios/internal/config"
 	"github.com/0xReLogic/Helios/internal/loadbalancer"
 	"github.com/0xReLogic/Helios/verifharness/lab"
+	"pgregory.net/rapid"
 )
 
 // inst is one backend instance the model believes to be registered.
@@ -31,15 +32,82 @@ type sys struct {
 	fn    *lab.FakeNet
 }
 
+// env is the part of the configuration the balancer runs under that the statement does not mention and
+// that therefore must not matter for it: the health-check section. Active probes of the scripted
+// backends are always answered 200 and every proxied answer is a 200, so neither kind of check has a
+// reason to eject anything: the only unhealthy backends are the ones the history ejects itself.
+type env struct {
+	Active    bool   `json:"active_checks"`
+	IntervalS int    `json:"active_interval_s,omitempty"`
+	TimeoutS  int    `json:"active_timeout_s,omitempty"`
+	Path      string `json:"active_path,omitempty"`
+	Passive   bool   `json:"passive_checks"`
+	Threshold int    `json:"passive_threshold,omitempty"`
+	WindowS   int    `json:"passive_window_s,omitempty"`
+}
+
+func (e env) labels() []string {
+	l := []string{"active-checks-off", "passive-checks-off"}
+	if e.Active {
+		l[0] = "active-checks-on"
+	}
+	if e.Passive {
+		l[1] = "passive-checks-on"
+	}
+	return l
+}
+
+// genEnv draws a health-check section that config validation accepts (0 < timeout < interval, a path,
+// positive threshold and window): intervals shorter and much longer than a history, the values of the
+// shipped helios.yaml (5/3 "/health", 3/30) among them.
+func genEnv(rt *rapid.T) env {
+	var e env
+	e.Active = rapid.IntRange(0, 9).Draw(rt, "active_checks") < 6
+	if e.Active {
+		e.IntervalS = rapid.SampledFrom([]int{2, 3, 5, 5, 10, 30, 600}).Draw(rt, "active_interval")
+		hi := e.IntervalS - 1
+		if hi > 10 {
+			hi = 10
+		}
+		e.TimeoutS = rapid.IntRange(1, hi).Draw(rt, "active_timeout")
+		e.Path = rapid.SampledFrom([]string{"/health", "/healthz", "/", "/status/ready"}).Draw(rt, "active_path")
+	}
+	e.Passive = rapid.IntRange(0, 9).Draw(rt, "passive_checks") < 5
+	if e.Passive {
+		e.Threshold = rapid.IntRange(1, 5).Draw(rt, "passive_threshold")
+		e.WindowS = rapid.SampledFrom([]int{1, 5, 30, 60}).Draw(rt, "passive_window")
+	}
+	return e
+}
+
 func newSys(strategy string, n int) (*sys, []inst, error) {
+	return newSysEnv(strategy, n, env{}, lab.NewFakeNet())
+}
+
+// newSysEnv builds the balancer under the health-check section e. With active checks the caller runs
+// the case inside fn.WithDefaultTransport (Helios's prober uses the default transport); probes are
+// answered 200 whatever the proxied path of the host is scripted to do at that moment.
+func newSysEnv(strategy string, n int, e env, fn *lab.FakeNet) (*sys, []inst, error) {
 	cfg := lab.BaseConfig(strategy, lab.Ones(n))
 	cfg.AdminAPI.Enabled = true
 	cfg.AdminAPI.Port = 9091
+	cfg.HealthChecks.Active.Enabled = e.Active
+	cfg.HealthChecks.Active.Interval, cfg.HealthChecks.Active.Timeout, cfg.HealthChecks.Active.Path = e.IntervalS, e.TimeoutS, e.Path
+	cfg.HealthChecks.Passive.Enabled = e.Passive
+	cfg.HealthChecks.Passive.UnhealthyThreshold, cfg.HealthChecks.Passive.UnhealthyTimeout = e.Threshold, e.WindowS
+	// the health-check section must be one a configuration file may carry (the histories themselves also
+	// start from an empty pool, which a file may not: validated beside one backend)
+	vc := lab.BaseConfig(strategy, lab.Ones(1))
+	vc.HealthChecks = cfg.HealthChecks
+	if err := vc.Validate(); err != nil {
+		return nil, nil, fmt.Errorf("health-check section rejected: %v", err)
+	}
+	fn.SetProbe(func(string) lab.Behaviour { return lab.Good })
 	lb, err := loadbalancer.NewLoadBalancer(cfg)
 	if err != nil {
 		return nil, nil, err
 	}
-	s := &sys{cfg: cfg, lb: lb, fn: lab.NewFakeNet()}
+	s := &sys{cfg: cfg, lb: lb, fn: fn}
 	s.admin = adminapi.NewMux(lb, cfg, lb.GetMetricsCollector())
 	s.fn.Install(lb)
 	var model []inst
